@@ -83,12 +83,16 @@ func (def *mapAsList) deleteByKey(r node.ListRequest) error {
 	}
 	keyVal := reflect.ValueOf(r.Key[0].Value())
 	def.src.SetMapIndex(keyVal, reflect.ValueOf(nil))
+	// the sorted keys no longer describe the map
+	def.index = nil
 	return nil
 }
 
 func (def *mapAsList) getByRow(r node.ListRequest) (reflect.Value, []reflect.Value, error) {
 	var empty reflect.Value
-	if def.index == nil {
+	// (a walk that starts over looks at the map as it is now: it may have
+	// changed through another node)
+	if def.index == nil || r.First {
 		def.index = newIndex(def.src.MapKeys(), def.c)
 	}
 	if r.Row >= len(def.index.vals) {
@@ -107,7 +111,11 @@ func (def *mapAsList) newListItem(r node.ListRequest) (reflect.Value, error) {
 	if err != nil {
 		return empty, err
 	}
+	if !isKeyValid(r.Key) {
+		return empty, fmt.Errorf("no key specified for %s", r.Path.String())
+	}
 	keyVal := reflect.ValueOf(r.Key[0].Value())
 	def.src.SetMapIndex(keyVal, itemVal)
+	def.index = nil
 	return itemVal, nil
 }
